@@ -227,7 +227,7 @@ const (
 	opArrDelete = 21
 )
 
-var setNames = []string{"SetNull", "SetBool(true)", "SetBool(false)", "SetInt(-5)", "SetUInt(2^64-1)", "SetFloat(2.5)", `SetString("")`, `SetString("x\"\n")`, "SetStringBytes(40B)"}
+var setNames = []string{"SetNull", "SetBool(true)", "SetBool(false)", "SetInt(-5 | MaxInt64 | MinInt64 by route)", "SetUInt(2^64-1 | 7 | 2^63 by route)", "SetFloat(2.5 | 1e21 | 5e-324 by route)", `SetString("")`, `SetString("x\"\n")`, "SetStringBytes(40B)"}
 
 var fortyBytes = []byte("0123456789abcdefghijABCDEFGHIJ\x00\x01\x7f\"\\/\n\t\r\b")
 
@@ -248,6 +248,27 @@ func (o editOp) String() string {
 		what = fmt.Sprintf("Object.DeleteElems[form %d]", o.form)
 	}
 	return fmt.Sprintf("%s@%s subset=%b via %s", what, o.p, o.subset, routeNames[o.route])
+}
+
+// the numeric Set* calls write a different value per navigation route, so that small,
+// boundary and large values are all written at every position
+var (
+	setIntVals   = [3]int64{-5, math.MaxInt64, math.MinInt64}
+	setUintVals  = [3]uint64{math.MaxUint64, 7, 1 << 63}
+	setFloatVals = [3]float64{2.5, 1e21, 5e-324}
+)
+
+func setValueNodeOp(o editOp) *ref.Node {
+	r := o.route % 3
+	switch o.kind {
+	case opSetInt:
+		return ref.Int(setIntVals[r])
+	case opSetUint:
+		return ref.Uint(setUintVals[r])
+	case opSetFloat:
+		return ref.Float(setFloatVals[r])
+	}
+	return setValueNode(o.kind)
 }
 
 func setValueNode(kind int) *ref.Node {
@@ -337,7 +358,7 @@ func applyModel(docs []*ref.Node, o editOp) ([]*ref.Node, bool) {
 		if !setAllowed(o.kind, out[o.p[0]].K) {
 			return out, false
 		}
-		out[o.p[0]] = setValueNode(o.kind)
+		out[o.p[0]] = setValueNodeOp(o)
 		return out, true
 	}
 	if o.kind < nSetOps {
@@ -346,7 +367,7 @@ func applyModel(docs []*ref.Node, o editOp) ([]*ref.Node, bool) {
 		if !setAllowed(o.kind, parent.Elems[idx].K) {
 			return out, false
 		}
-		parent.Elems[idx] = setValueNode(o.kind)
+		parent.Elems[idx] = setValueNodeOp(o)
 		return out, true
 	}
 	n := nodeAt(out, o.p)
@@ -399,11 +420,11 @@ func applyReal(pj *simdjson.ParsedJson, docs []*ref.Node, o editOp) (apiErr erro
 		case opSetFalse:
 			serr = it.SetBool(false)
 		case opSetInt:
-			serr = it.SetInt(-5)
+			serr = it.SetInt(setIntVals[o.route%3])
 		case opSetUint:
-			serr = it.SetUInt(math.MaxUint64)
+			serr = it.SetUInt(setUintVals[o.route%3])
 		case opSetFloat:
-			serr = it.SetFloat(2.5)
+			serr = it.SetFloat(setFloatVals[o.route%3])
 		case opSetStrEmpty:
 			serr = it.SetString("")
 		case opSetStrEsc:
@@ -414,7 +435,7 @@ func applyReal(pj *simdjson.ParsedJson, docs []*ref.Node, o editOp) (apiErr erro
 		if serr == nil {
 			// the iterator the call was made on must read the new value too (callers keep
 			// using the element iterator they edited through)
-			want := setValueNode(o.kind)
+			want := setValueNodeOp(o)
 			wk := &walker{budget: 1 << 16}
 			got, rerr := wk.value(it)
 			if rerr != nil || got.Render() != want.Render() {
@@ -532,6 +553,11 @@ func roundTrip(pj *simdjson.ParsedJson, m, m2 simdjson.CompressMode) (*simdjson.
 
 // stateAgreement checks every read API, marshal and a serialize round trip against docs.
 func stateAgreement(pj *simdjson.ParsedJson, docs []*ref.Node, mode simdjson.CompressMode) (what, api string) {
+	// gaps: no NOP may jump over a live entry (an iterator standing inside a container when it
+	// is nulled or emptied continues from inside the gap)
+	if err := tapeErr(pj, ref.TapeOpts{AllowNop: true, NopNoOvershoot: true}); err != nil {
+		return "edited tape: " + err.Error(), "tape format"
+	}
 	ex := mkExpect(docs)
 	if what, walker := compareWalkers(pj, ex, true); what != "" {
 		return what, walker
